@@ -132,3 +132,46 @@ func VxH_C13_fixed_auto_column() {
 		vx.Assert("auto-column-collapses", eq(c.Width.V(), 0))
 	}
 }
+
+// automatic table layout with percentage columns under a spanning cell wider than them: the
+// column widths are finite, not negative, and with the spacing fill the table width.
+func VxH_C13_auto_percent() {
+	src := "<html><head><style>head{display:none} html,body{margin:0} .c{width:auto} x-w{display:block;width:400px;height:5px} x-s{display:block;width:20px;height:5px}</style></head>" +
+		"<body><table><tr><td></td><th></th><td class=c><x-s></x-s></td></tr><tr><td colspan=2 class=c><x-w></x-w></td><td class=c><x-s></x-s></td></tr></table></body></html>"
+	doc, err := tree.NewHTML(utils.InputString(src), "", nil, "")
+	if err != nil {
+		panic(err)
+	}
+	rng := func(id string, lo, hi pr.Float) pr.Float {
+		v := pr.Float(vx.F32(id))
+		vx.Assume(vx.And(v >= lo, v <= hi))
+		return v
+	}
+	p1, p2 := rng("percent-1", 10, 90), rng("percent-2", 10, 90)
+	sp := rng("spacing", 0, 10)
+	D := func(p pr.KnownProp, v pr.DeclaredValue) tree.VxDecl { return tree.VxDecl{Prop: p, Value: v} }
+	zero := vxPxV(0)
+	pad := []tree.VxDecl{D(pr.PPaddingLeft, zero), D(pr.PPaddingRight, zero), D(pr.PPaddingTop, zero), D(pr.PPaddingBottom, zero)}
+	perc := func(v pr.Float) pr.DimOrS { return pr.Dimension{Value: v, Unit: pr.Perc}.ToValue() }
+	sheet := tree.VxSheet(
+		tree.VxRule{Tag: "table", Decls: []tree.VxDecl{D(pr.PBorderSpacing, pr.Point{pr.Dimension{Value: sp, Unit: pr.Px}, pr.Dimension{Value: sp, Unit: pr.Px}})}},
+		tree.VxRule{Tag: "td", Decls: append([]tree.VxDecl{D(pr.PWidth, perc(p1))}, pad...)},
+		tree.VxRule{Tag: "th", Decls: append([]tree.VxDecl{D(pr.PWidth, perc(p2))}, pad...)},
+	)
+	pages := Layout(doc, []tree.CSS{sheet}, false, nil)
+	vx.Reach("laid-out")
+	var tables []Box
+	vxAll(pages[0], func(b Box) bool { return bo.TableT.IsInstance(b) }, &tables)
+	vx.Assert("structure", len(tables) == 1)
+	t := tables[0].(bo.TableBoxITF).Table()
+	vx.Assert("three-columns", len(t.ColumnWidths) == 3)
+	total := sp
+	for i, w := range t.ColumnWidths {
+		id := string(rune('0' + i))
+		vx.Assert("column-width-finite:"+id, vx.Finite(float64(w)))
+		vx.Assert("column-width-not-negative:"+id, w >= 0)
+		total += w + sp
+	}
+	vx.Assert("table-width-finite", vx.Finite(float64(t.Width.V())))
+	vx.Assert("columns-and-spacing-fill-the-table", vx.ApproxEq(float64(total), float64(t.Width.V())))
+}
